@@ -18,6 +18,7 @@ def main():
                 print(out[-4000:])
                 print("setup: lake build failed for " + pid)
                 return 1
+            C.cache_ref_driver(P.COMPONENT)
             if hasattr(P, "prepare"):
                 P.prepare(C, "quick")
             C.build_harness(P.HARNESS, getattr(P, "VARIANT", "asan"), getattr(P, "EXTRA_FLAGS", ()), getattr(P, "WRAPS", ()))
